@@ -52,17 +52,17 @@ func Spec() *mon.Spec {
 func gen(g *mon.Gen) {
 	rng := g.Rng
 	for _, mode := range []string{"dev", "typed-error", "generic-error"} {
-		for i := 0; i < g.Pick(30, 600); i++ {
+		for i := 0; i < g.Pick(30, 2500); i++ {
 			g.Emit(&Case{Kind: "frames", Mode: mode, Seed: rng.Int63(), N: 200})
 		}
 	}
 	for lo := 1; lo < 128; lo += 16 {
 		g.Emit(&Case{Kind: "unsupported", Mode: "dev", Lo: lo, Hi: lo + 15, Seed: rng.Int63()})
 	}
-	for i := 0; i < g.Pick(40, 800); i++ {
+	for i := 0; i < g.Pick(40, 1500); i++ {
 		g.Emit(&Case{Kind: "sequence", Mode: "mixed", Seed: rng.Int63(), N: 6 + rng.Intn(14)})
 	}
-	for i := 0; i < g.Pick(150, 3000); i++ {
+	for i := 0; i < g.Pick(150, 10000); i++ {
 		g.Emit(&Case{Kind: "stream", Mode: []string{"dev", "typed-error", "generic-error"}[i%3], Seed: rng.Int63(), N: 2 + rng.Intn(6)})
 	}
 }
